@@ -133,7 +133,7 @@ let c12 toks =
    totality and panic-freedom at every depth; the model itself is run at depths <= 500) *)
 let c03 toks =
   match toks with
-  | ["d"; shape; depth; o; entry] ->
+  | [("d" | "dd"); shape; depth; o; entry] ->
     let d = int_of_string depth in
     let closed = not (Stdlib.String.length shape > 5 &&
                       (let suf = Stdlib.String.sub shape (Stdlib.String.length shape - 5) 5 in suf = "_open")) in
